@@ -194,10 +194,10 @@ PROPS = {
     "C11": {"exec": "C11", "compare": _proj(lambda e: _logs_dump_tree(e) or e.startswith("WRITE"), soft_events=True, soft_results=True),
             "assumptions": CLIENT_ASSUME + ["PARTIAL: fmt/logrus rendering is not modelled; the rendered log text is scanned (literal, hex, base64, byte dumps parsed back)",
                                             "ciphertext does not contain the password as a substring (cipher_hides premise of C11_no_secret)"]},
-    "C12": {"exec": "C12", "needs": ["e3dc.test"],
+    "C12": {"exec": "C12", "needs": ["e3dc", "e3dc.test"],
             "assumptions": ["JSON text syntax, key matching and duplicate-key rules of encoding/json (the model starts at a syntax tree; generated texts use exact key names)",
                             "decimal -> binary rounding of strconv.ParseFloat and RFC 3339 parsing of time (oracle annotations of the syntax tree)"]},
-    "C13": {"exec": "C13", "needs": ["e3dc.test"], "compare": cmp_c13,
+    "C13": {"exec": "C13", "needs": ["e3dc", "e3dc.test"], "compare": cmp_c13,
             "assumptions": ["number, string and time formatting of encoding/json / strconv / time (oracle table per case)",
                             "for a tag used for both a scalar and a container only validity and the absence of a crash are compared (the property does not fix that rendering)"]},
     "C15": {"exec": "C15", "needs": ["e3dc", "e3dc.test"], "compare": cmp_c15,
